@@ -297,6 +297,9 @@ func bounds(r *rand.Rand) []string {
 // Generate implements simkit.Engine: a stream of fresh commands, then delivered with
 // reordering (each command is delayed by a random number of slots) and duplication.
 func (Engine) Generate(cfg simkit.RunConfig) (any, bool) {
+	if cfg.Mode == "enum" {
+		return enumScenario(cfg)
+	}
 	r := simkit.Rand(cfg.Seed, "gen")
 	g := &gen{r: r, phys: 1000}
 	n := 4 + r.Intn(24)
@@ -328,6 +331,95 @@ func (Engine) Generate(cfg simkit.RunConfig) (any, bool) {
 	// transaction was ended on the key, prewrites do not arrive after GC passed the start ts.
 	sc.Cmds = enforceConstraints(sc.Cmds)
 	return sc, true
+}
+
+// ---- mode enum: every command sequence up to a small length over a fixed alphabet -------------
+
+func ets(n uint64) uint64 { return n << 18 }
+
+// enumAlphabet: two transactions on the keys a (primary of both) and b - T0 optimistic (start 10,
+// commit 30), T1 pessimistic (start 20, for-update 22, commit 40) - plus readers, GC and resolvers.
+func enumAlphabet() []Cmd {
+	s0, c0 := ets(10), ets(30)
+	s1, f1, c1 := ets(20), ets(22), ets(40)
+	pw0 := func(key, op string) Cmd {
+		return Cmd{Op: "prewrite", Txn: 0, Start: s0, Prim: "a", TTL: 3000, Keys: []string{key}, Ops: []string{op}, Vals: []string{"v"}, Acts: []int{0}, MinC: s0 + 1}
+	}
+	pw1 := func(key string, act int) Cmd {
+		return Cmd{Op: "prewrite", Txn: 1, Start: s1, Prim: "a", TTL: 3000, TS: f1, Keys: []string{key}, Ops: []string{"put"}, Vals: []string{"v"}, Acts: []int{act}, MinC: f1 + 1}
+	}
+	pl1 := func(key string, ret, chk, notEx bool) Cmd {
+		return Cmd{Op: "plock", Txn: 1, Start: s1, Prim: "a", TTL: 3000, TS: f1, Keys: []string{key}, Flag: ret, Flag2: chk, MinC: f1 + 1, NotEx: []bool{notEx}}
+	}
+	return []Cmd{
+		pw0("a", "put"), pw0("a", "del"), pw0("a", "insert"), pw0("a", "lock"), pw0("a", "check"), pw0("b", "put"),
+		{Op: "commit", Txn: 0, Start: s0, Keys: []string{"a"}, TS: c0},
+		{Op: "commit", Txn: 0, Start: s0, Keys: []string{"b"}, TS: c0},
+		{Op: "rollback", Txn: 0, Start: s0, Keys: []string{"a"}},
+		{Op: "rollback", Txn: 0, Start: s0, Keys: []string{"b"}},
+		{Op: "cleanup", Txn: 0, Start: s0, Keys: []string{"a"}, TS2: 0},
+		{Op: "cleanup", Txn: 0, Start: s0, Keys: []string{"a"}, TS2: ets(5000)},
+		{Op: "status", Txn: 0, Start: s0, Prim: "a", TS2: ets(50), Cur: ets(50), Flag: true},
+		{Op: "status", Txn: 0, Start: s0, Prim: "a", TS2: ets(50), Cur: ets(50), Flag: false},
+		{Op: "status", Txn: 0, Start: s0, Prim: "a", TS2: ets(100000), Cur: ets(100000), Flag: true},
+		{Op: "resolve", Txn: 0, Start: s0, TS: 0},
+		{Op: "resolve", Txn: 0, Start: s0, TS: c0},
+		{Op: "heartbeat", Txn: 0, Start: s0, Prim: "a", TTL: 9000},
+		pl1("a", false, false, false), pl1("b", false, false, false), pl1("a", true, true, false), pl1("b", false, false, true),
+		pw1("a", 1), pw1("a", 0), pw1("b", 1),
+		{Op: "prollback", Txn: 1, Start: s1, Keys: []string{"a"}, TS: f1},
+		{Op: "commit", Txn: 1, Start: s1, Keys: []string{"a"}, TS: c1},
+		{Op: "commit", Txn: 1, Start: s1, Keys: []string{"b"}, TS: c1},
+		{Op: "rollback", Txn: 1, Start: s1, Keys: []string{"a"}},
+		{Op: "cleanup", Txn: 1, Start: s1, Keys: []string{"a"}, TS2: 0},
+		{Op: "status", Txn: 1, Start: s1, Prim: "a", TS2: ets(50), Cur: ets(50), Flag: true, Flag2: true},
+		{Op: "resolve", Txn: 1, Start: s1, TS: 0},
+		{Op: "resolve", Txn: 1, Start: s1, TS: c1},
+		{Op: "bresolve", Txn: -1, Infos: [][2]uint64{{s0, 0}, {s1, c1}}},
+		{Op: "get", Txn: -1, Keys: []string{"a"}, TS: ets(15)},
+		{Op: "get", Txn: -1, Keys: []string{"a"}, TS: ets(35)},
+		{Op: "get", Txn: -1, Keys: []string{"a"}, TS: math.MaxUint64},
+		{Op: "get", Txn: -1, Keys: []string{"b"}, TS: ets(45)},
+		{Op: "scan", Txn: -1, Keys: []string{"", ""}, TS: ets(45), Limit: 5},
+		{Op: "scanlock", Txn: -1, TS: math.MaxUint64, Keys: []string{"", ""}},
+		{Op: "gc", Txn: -1, TS: ets(25)},
+	}
+}
+
+// enumDepth is the longest enumerated sequence of a tier.
+func enumDepth(tier string) int {
+	if tier == "thorough" {
+		return 4
+	}
+	return 3
+}
+
+func enumScenario(cfg simkit.RunConfig) (any, bool) {
+	al := enumAlphabet()
+	n := uint64(len(al))
+	idx := uint64(cfg.Index)
+	for l := 1; l <= enumDepth(cfg.Tier); l++ {
+		cnt := uint64(1)
+		for i := 0; i < l; i++ {
+			cnt *= n
+		}
+		if idx >= cnt {
+			idx -= cnt
+			continue
+		}
+		sc := &Scenario{}
+		for i := 0; i < l; i++ {
+			c := al[idx%n]
+			idx /= n
+			if len(c.Vals) > 0 {
+				c.Vals = []string{fmt.Sprintf("v%d", i)} // every written value is unique
+			}
+			sc.Cmds = append(sc.Cmds, c)
+		}
+		sc.Cmds = enforceConstraints(sc.Cmds)
+		return sc, true
+	}
+	return nil, false
 }
 
 func enforceConstraints(cmds []Cmd) []Cmd {
